@@ -360,6 +360,22 @@ func TestVerifC11(t *testing.T) {
 			}
 		}
 	}
+	// three rounds (Retries=2, the default): a service that succeeded in round 2 while the Put is still
+	// short of replicas must not be asked again in round 3 (seed C11-3).  One service: every outcome
+	// assignment; two services: deviation-bounded (faults + preemptions).
+	for want := 1; want <= 3; want++ {
+		for _, disk := range []bool{true, false} {
+			cfgs = append(cfgs, c11cfg{Writable: 1, ReadOnly: 1, Disk: disk, Want: want, Retries: 2, Free: true, Bound: pb, Full: true})
+			b := 2
+			if thorough {
+				b = 4
+			}
+			cfgs = append(cfgs, c11cfg{Writable: 2, ReadOnly: 0, Disk: disk, Want: want, Retries: 2, Free: false, Bound: b, Full: true})
+			if thorough {
+				cfgs = append(cfgs, c11cfg{Writable: 2, ReadOnly: 1, Disk: disk, Want: want, Retries: 3, Free: false, Bound: 3, Full: true, ROAlt: true})
+			}
+		}
+	}
 	// larger configurations: total deviation bound (faults + preemptions) 2, thorough 3
 	for w := 3; w <= 4; w++ {
 		for want := 1; want <= 3; want++ {
